@@ -372,12 +372,12 @@ class ProofWorld(HistoryWorld):
                 'rejection the client retries against the honest server and must accept. Non-trivial = a deviation or a pruning was applied; distinct = distinct (query kind, deviation, outcome) sequences.')
 
     def assumptions(self):
-        return ['refmodel RCell/BoC/Hashmap/chain builders are the trusted base; at most two Merkle levels are nested', 'carve-outs: depth field of the Merkle-proof root, stored-hash field of the two roots of an account proof, proofs of absence, check_shard_proof',
+        return ['refmodel RCell/BoC/Hashmap/chain builders are the trusted base; up to three Merkle levels are nested (the outer proof over a tree whose embedded Merkle cells embed Merkle cells)', 'carve-outs: depth field of the Merkle-proof root, stored-hash field of the two roots of an account proof, proofs of absence, check_shard_proof',
                 'the reference verifier judges the parsed tree, so BoC-format leniency stays with C05']
 
     def make_config(self, rng, leg, run_index):
         return {'world_seed': rng.getrandbits(64), 'naccounts': rng.choice([1, 1, 2, 3, 6, 12, 40]), 'tree': rng.choice([1, 3, 10, 40, 150]), 'steps': rng.choice([4, 8, 12]),
-                'byz_rate': rng.choice([0.0, 0.5, 0.8]), 'extra_currencies': rng.random() < 0.4}
+                'byz_rate': rng.choice([0.0, 0.5, 0.8]), 'extra_currencies': rng.random() < 0.4, 'nest': rng.choice([1, 2, 2])}
 
     def new_state(self, ctx):
         cfg = ctx.cfg
@@ -409,7 +409,7 @@ class ProofWorld(HistoryWorld):
         st.nested = RCell(rc.rbits(wr, 9), (merkle_proof_of(y), d))
         st.nested_proof_child = RCell(st.nested.bits, (RCell(merkle_proof_of(y).bits, (RCell(y.bits, (pruned_of(x, 2), c)),), True, strict=False), d))
         # random trees embedding partially pruned Merkle proofs / updates: the outer prover prunes next to and below them
-        st.tree_m = rc.random_tree_with_merkle(wr, max(4, cfg['tree'] // 2))
+        st.tree_m = rc.random_tree_with_merkle(wr, max(4, cfg['tree'] // 2), nest=cfg.get('nest', 1))
         return st
 
     def gen_op(self, st, ctx):
@@ -561,6 +561,11 @@ class ProofWorld(HistoryWorld):
             ctx.probe('tree-with-inner-merkle-cells')
             if any(c.special and c.type == 1 and c.mask >= 2 for c in child.walk()):
                 ctx.probe('level-2-pruned-branch-in-proof')
+            for c in child.walk():
+                if c.special and c.type == 1 and c.mask in (2, 4, 5, 6):
+                    ctx.probe('pruned-branch-with-gapped-mask-%s-in-proof' % bin(c.mask)[2:].zfill(3))
+                if c.special and c.type == 1 and c.mask >= 4:
+                    ctx.probe('level-3-pruned-branch-in-proof')
             if any((not c.special) and len(set(r.mask for r in c.refs if r.mask)) > 1 for c in child.walk()):
                 ctx.probe('siblings-with-different-level-masks')
         if npr:
@@ -601,6 +606,10 @@ class ProofWorld(HistoryWorld):
             data = self._flip_transit(data, dev['seed'], ctx)
         cells, err = self._client_parse(data, ctx)
         if cells is None or len(cells) != 1:
+            if dk is None:
+                # the honest server's answer (a valid bag written by the reference encoder) could not even be read
+                ctx.evaluated(1)
+                self.V(ctx, 'honest-proof-rejected', 'generic', 'honest-unreadable', 'an honest generic proof could not be parsed by Cell.from_boc: %r' % (err,))
             self._after_reject(st, op, ctx, 'generic', dk)
             return
         model = self._to_model(cells)
@@ -653,6 +662,9 @@ class ProofWorld(HistoryWorld):
             data = self._flip_transit(data, dev['seed'], ctx)
         cells, err = self._client_parse(data, ctx)
         if cells is None or len(cells) != 1 or len(cells[0].refs) < 1:
+            if dk is None:
+                ctx.evaluated(1)
+                self.V(ctx, 'honest-proof-rejected', 'header', 'honest-unreadable', 'an honest block-header proof could not be parsed by Cell.from_boc: %r' % (err,))
             self._after_reject(st, op, ctx, 'header', dk)
             return
         model = self._to_model(cells)
@@ -803,6 +815,9 @@ class ProofWorld(HistoryWorld):
         if cells is None:
             if ok:
                 self.V(ctx, 'forged-proof-accepted', 'account', 'unparseable', 'check_account_proof accepted bytes that Cell.from_boc rejects')
+            elif dk is None:
+                ctx.evaluated(1)
+                self.V(ctx, 'honest-proof-rejected', 'account', 'honest-unreadable', 'an honest account proof could not be parsed by Cell.from_boc: %r' % (err,))
             self._after_reject(st, op, ctx, 'account', dk)
             return
         model = self._to_model(cells)
